@@ -126,3 +126,8 @@ Definition x_ignore_hyp (cfg : config) (p : package) : nat * nat :=
         | None => acc
         end
       else acc) (List.concat (f_comments f)) acc) (kept_files cfg p) (O, O).
+
+(* the input condition of the totality theorems (C10): evaluated by the harness on every serialised package *)
+From GG Require Import Proofs.TotalProofs.
+Definition x_lines_ok (cfg : config) (p : package) : bool :=
+  forallb (file_ok kw_ignore) (filter (fun f => negb (should_skip cfg (f_name f))) (p_files p)).
